@@ -153,7 +153,7 @@ ArrFn(f, r, args) ==
          ELSE IF ~IsSmall(args[1]) \/ (n >= 2 /\ ~IsSmall(args[2])) THEN Unspec
          ELSE LET st == Clamp(args[1].io, 0, len)
                   en == IF n >= 2 /\ args[2].io >= 0 /\ args[2].io <= len THEN args[2].io ELSE len IN
-              IF st > en THEN Unspec                         \* crossed bounds: empty or an error, never a crash
+              IF st > en THEN [t |-> "erroror", val |-> A(<<>>)]       \* crossed bounds: nothing, or an error - never elements, never a crash
               ELSE A(SubSeq(es, st + 1, en))
     [] f = "rand" -> [t |-> "oneof", alts |-> IF len = 0 THEN {Nil} ELSE {es[i] : i \in 1..len}]
     [] f = "shuffle" -> [t |-> "perm", of |-> es]
